@@ -11,7 +11,7 @@
 From Coq Require Import List Bool Arith Permutation.
 Import ListNotations.
 Require Import PV.TypeVar.Base PV.TypeVar.Model PV.TypeVar.Spec PV.TypeVar.Simple.
-Require Import PV.Proofs.SolveGen PV.Proofs.SolveAtoms PV.Proofs.SolveGenMain.
+Require Import PV.Proofs.SolveGen PV.Proofs.SolveAtoms PV.Proofs.SolveGenMain PV.Proofs.SolveCall PV.Proofs.SolveCallGen.
 Require Import PV.Gen.Solve PV.Gen.SolveAtoms.
 
 (* the translated source computes the reference model *)
@@ -19,6 +19,13 @@ Theorem C15_generated_solve_is_reference_model : forall (V : Type) (O : ops V) b
   solve O bs = msolve O rrs_limit bs.
 Proof. exact @solve_is_model. Qed.
 Print Assumptions C15_generated_solve_is_reference_model.
+
+(* the functions around solve that the hand-written parts of the model mirror
+   (de-duplication in resolve_bounds_map, is_assignable = "can_assign is not an
+   error", bound generation in TypeVarValue) still have the expected shape *)
+Theorem C15_bound_generation_shape : bound_generation_shape_ok = true.
+Proof. reflexivity. Qed.
+Print Assumptions C15_bound_generation_shape.
 
 (* the value chosen accepts every lower bound: all bound lists, every order, no guard *)
 Theorem C15_solution_accepts_every_lower_bound : forall (V : Type) (O : ops V), acc_laws O ->
@@ -108,6 +115,39 @@ Theorem C15_order_independence_full_statement_refuted :
   ~ (forall bs bs', Permutation bs bs' -> is_err (solve atom_ops bs) = is_err (solve atom_ops bs')).
 Proof. exact perm_full_statement_refuted. Qed.
 Print Assumptions C15_order_independence_full_statement_refuted.
+
+(* the same through resolve_bounds_map's de-duplication (tuple(dict.fromkeys(bounds))) *)
+Theorem C15_resolve_solution_accepts_every_lower_bound : forall (V : Type) (O : ops V), acc_laws O ->
+  forall bs v l, resolve O bs = Sol v -> In (LowerBound l) bs -> acc O v l = true.
+Proof. exact @gen_resolve_lower. Qed.
+Print Assumptions C15_resolve_solution_accepts_every_lower_bound.
+
+Theorem C15_resolve_verdict_is_order_independent_partial : forall (V : Type) (O : ops V), acc_laws O ->
+  forall bs bs', Permutation bs bs' -> perm_guard O (dedup (bound_eqb O) bs) = true ->
+  is_err (resolve O bs) = is_err (resolve O bs').
+Proof. exact @gen_resolve_perm_verdict_partial. Qed.
+Print Assumptions C15_resolve_verdict_is_order_independent_partial.
+
+(* one call whose parameters are annotated with the bare type variable
+   (Model.call_solution: each argument contributes LowerBound(arg) plus the
+   declaration's inherent bounds; every argument is first solved on its own).
+   All upper bounds are then copies of the declared bound, so no guard is
+   needed: the property holds at full strength for this family of calls. *)
+Theorem C15_call_solution_accepts_every_argument : forall (V : Type) (O : ops V), acc_laws O ->
+  forall limit d args v a, call_solution O limit d args = Sol v -> In a args -> acc O v a = true.
+Proof. exact @call_solution_accepts_arguments. Qed.
+Print Assumptions C15_call_solution_accepts_every_argument.
+
+Theorem C15_call_solution_within_declared_bound : forall (V : Type) (O : ops V), acc_laws O ->
+  forall limit b args v, call_solution O limit (Bounded b) args = Sol v -> acc O b v = true.
+Proof. exact @call_solution_within_declared_bound. Qed.
+Print Assumptions C15_call_solution_within_declared_bound.
+
+Theorem C15_call_solution_is_a_declared_constraint : forall (V : Type) (O : ops V), acc_laws O ->
+  forall limit cs args v, cs <> [] -> args <> [] ->
+  call_solution O limit (Constrained cs) args = Sol v -> In v cs \/ is_any O v = true.
+Proof. exact @call_solution_is_a_constraint. Qed.
+Print Assumptions C15_call_solution_is_a_declared_constraint.
 
 (* the hypotheses hold on the simple fragment over the implementation's own
    acceptance table, so every theorem above applies to `atom_ops` outright *)
